@@ -412,15 +412,16 @@ def search(seed, tier):
             found.append(dict(case='Legendre basis', degree=l, x=x.reshape(-1).tolist(), got=Lb[:, l].tolist()))
     # bases are functions of the VALUES of their arguments: refilling the same buffers in place and calling again
     # gives what fresh tensors give
-    for nm, basis, k_args in (('RealSphericalHarmonics', FB.RealSphericalHarmonics(max_degree=4), 2), ('ZonalSphericalHarmonics', FB.ZonalSphericalHarmonics(max_degree=3), 2),
-                              ('RealFourierSeries', FB.RealFourierSeries(max_degree=3), 1), ('LegendreBasis', FB.LegendreBasis(max_degree=4), 1)):
+    for nm, mk, k_args in (('RealSphericalHarmonics', lambda: FB.RealSphericalHarmonics(max_degree=4), 2), ('ZonalSphericalHarmonics', lambda: FB.ZonalSphericalHarmonics(max_degree=3), 2),
+                           ('RealFourierSeries', lambda: FB.RealFourierSeries(max_degree=3), 1), ('LegendreBasis', lambda: FB.LegendreBasis(max_degree=4), 1)):
+        basis = mk()
         bufs = [torch.tensor([[rng.uniform(0.2, 0.9)] for _ in range(n)]) for _ in range(k_args)]
         for rep_ in range(3):
             first = basis(*bufs).clone()
             for b in bufs:
                 b.mul_(0.7).add_(0.21)
             again = basis(*bufs)
-            fresh = basis(*[b.clone() for b in bufs])
+            fresh = mk()(*[b.clone() for b in bufs])      # a new basis object on new tensors
             if not torch.allclose(again, fresh, rtol=0, atol=1e-12):
                 found.append(dict(case='basis evaluated on refilled buffers differs from fresh tensors with the same values', basis=nm,
                                   call=rep_ + 2, max_abs_diff=float((again - fresh).abs().max())))
